@@ -214,9 +214,9 @@ example : Layout 0x92d8000000000000 ∧ getResolution 0x92d8000000000000 = 4 := 
 
 /-- … and on a cell with non-normalised ignored fields (segment 3 and s = 99 at resolution 0) -/
 example : ∃ id, serialize ⟨7, 3, 99, 0⟩ = .ok id ∧ Layout id ∧ getResolution id = 0 :=
-  ⟨_, serialize_res0' 7 3 99 (by decide) (by decide),
-    (serialize_ok_layout _ _ (serialize_res0' 7 3 99 (by decide) (by decide)) (by decide) (by decide)).1,
-    (serialize_ok_layout _ _ (serialize_res0' 7 3 99 (by decide) (by decide)) (by decide) (by decide)).2.1⟩
+  ⟨_, serialize_res0_skel 7 3 99 (by decide) (by decide),
+    (serialize_ok_layout _ _ (serialize_res0_skel 7 3 99 (by decide) (by decide)) (by decide) (by decide)).1,
+    (serialize_ok_layout _ _ (serialize_res0_skel 7 3 99 (by decide) (by decide)) (by decide) (by decide)).2.1⟩
 
 /-- a curve position that does not fit is rejected -/
 example : serialize ⟨7, 3, 64, 4⟩ = .err .sTooLarge :=
